@@ -106,6 +106,19 @@ Theorem C16_three_hops_at_most :
 Proof. exact grandchildren_childless. Qed.
 Print Assumptions C16_three_hops_at_most.
 
+(* every delivery is either the local one on the publishing side (message as
+   posted) or a remote copy that carries the publisher's name and a cleared
+   forward flag -- nothing else is ever handed to a subscriber *)
+Theorem C16_delivered_copies_marked :
+  forall (n : nat) (posts : list post) (sched : list nat) (e : event),
+    In e (log (network n posts sched)) ->
+    exists s0 c0 src, nth_error posts (e_id e) = Some (s0, c0, src) /\ e_chan e = c0 /\
+      ((e_side e = s0 /\ e_origin e = m_origin (source_msg s0 (e_id e) src)
+                      /\ e_fwd e = m_fwd (source_msg s0 (e_id e) src))
+       \/ (e_side e <> s0 /\ e_origin e = Some s0 /\ e_fwd e = Some false)).
+Proof. exact delivered_copies_marked. Qed.
+Print Assumptions C16_delivered_copies_marked.
+
 (* agent-side state advances are forwarded by default ... *)
 Theorem C16_agent_advance_forwarded :
   forall (n : nat) (posts : list post) (sched : list nat) (i s0 : nat),
